@@ -99,6 +99,7 @@ CORPUS = {
 (assert (exists ((|b c| Int)) (> |b c| 0)))
 ''',
     'names': '''(declare-const x1__fresh Int)
+(declare-const __v (_ BitVec 2))
 (declare-const _v (_ BitVec 4))
 (declare-const v (_ BitVec 8))
 (declare-const s_prefix String)
